@@ -252,6 +252,24 @@ pub fn roundtrip(ctx: &mut Ctx) {
             Ok(Err(e)) => { ctx.violation("C01", "writer returned an error on valid input", json!({"case":attrs,"error":e.to_string()})); continue; }
             Err(p) => { ctx.violation("C01", "writer panicked on valid input", json!({"case":attrs,"panic":p})); continue; }
         };
+        // ---------- the same archive through a sink that accepts only part of every write / gathered write (legal `Write` behaviour):
+        // without encryption and timestamps of "now" the bytes are a function of the input, so they must be the same
+        if cfg.enc == 0 {
+            let (c3, e3) = (cfg.clone(), entries.clone());
+            let seed = bytes.len() as u64 * 2654435761 + written.len() as u64;
+            ctx.oracle_eval();
+            match catch(move || gen::write_archive_to(kind, &c3, &e3, gen::ChaoticSink::new(seed)).map(|(s, _)| s.out)) {
+                Ok(Ok(out)) => {
+                    if out != bytes {
+                        let at = out.iter().zip(bytes.iter()).position(|(a, b)| a != b).unwrap_or(out.len().min(bytes.len()));
+                        ctx.violation("C14", "the archive written through a sink that makes short writes differs from the one written to memory", json!({"case":attrs,"len_short_writes":out.len(),"len_memory":bytes.len(),"first_difference_at":at}));
+                        ctx.violation("C01", "the archive written through a sink that makes short writes differs from the one written to memory", json!({"case":attrs,"len_short_writes":out.len(),"len_memory":bytes.len(),"first_difference_at":at}));
+                    }
+                }
+                Ok(Err(e)) => ctx.violation("C01", "writer failed on a sink that makes short writes", json!({"case":attrs,"error":e.to_string()})),
+                Err(p) => { ctx.violation("C01", "writer panicked on a sink that makes short writes", json!({"case":attrs,"panic":p.clone()})); ctx.violation("C14", "writer panicked on a sink that makes short writes", json!({"case":attrs,"panic":p})); }
+            }
+        }
         let pw = cfg.password.clone();
         let pw_opt: Option<&str> = if cfg.enc != 0 { Some(&pw) } else { None };
         let solid = !matches!(kind, WriterKind::Builder | WriterKind::WriteFile);
